@@ -612,7 +612,11 @@ def default_transpiler_cases(run, found, stats, rng):
                         a, b = rng.sample(range(k), 2)
                         c.add(rng.choice([gates.CNOT, gates.SWAP])(a, b))
                 c.add(gates.M(*rng.sample(range(k), k), register_name="out") if k != 2 else gates.M(0, register_name="out"))
-                out, layout = t(c)
+                try:
+                    out, layout = R.with_timeout(30.0, t, c)
+                except R.RouterTimeout:
+                    stats["timeouts"] = stats.get("timeouts", 0) + 1     # termination is not claimed
+                    continue
                 n = len(qs)
                 l2p = [layout[w] for w in out.wire_names]
                 U = R.exact_operator(c.queue, n)
@@ -635,7 +639,11 @@ def default_transpiler_cases(run, found, stats, rng):
                                       "NativeGates.default() instead of the backend's natives: the pipeline's own output is rejected",
                                       {"qubits": qs, "natives": natives, "output_gates": sorted({g.name for g in out.queue})}))
                 # executing through Circuit.execute: same (certain) outcome as the untranspiled circuit
-                r1 = c(nshots=20).frequencies(registers=True)
+                try:
+                    r1 = R.with_timeout(30.0, lambda: c(nshots=20).frequencies(registers=True))
+                except R.RouterTimeout:
+                    stats["timeouts"] = stats.get("timeouts", 0) + 1
+                    continue
                 ref = Circuit(k)
                 for g in c.queue:
                     ref.add(g.on_qubits({q: q for q in range(k)}) if not isinstance(g, gates.M) else gates.M(*g.qubits, register_name="out"))
